@@ -754,6 +754,8 @@ func (m *model) runConcurrent(h handler.Handler6, scripts [][]Msg) *core.Violati
 		reps  []rep
 		viol  *core.Violation
 		start = make(chan struct{})
+		abort = make(chan struct{})
+		once  sync.Once
 	)
 	// resolve every message before any goroutine starts (no model access while running)
 	type prepared struct {
@@ -784,6 +786,7 @@ func (m *model) runConcurrent(h handler.Handler6, scripts [][]Msg) *core.Violati
 						viol = core.Violate("C08/panic", "handler panicked in concurrent phase: %v", r)
 					}
 					mu.Unlock()
+					once.Do(func() { close(abort) })
 				}
 			}()
 			<-start
@@ -809,9 +812,15 @@ func (m *model) runConcurrent(h handler.Handler6, scripts [][]Msg) *core.Violati
 		}(g)
 	}
 	close(start)
-	wg.Wait()
-	if viol != nil {
-		return viol
+	finished := core.WaitTimeout(&wg, abort, 60*time.Second)
+	mu.Lock()
+	v := viol
+	mu.Unlock()
+	if v != nil {
+		return v
+	}
+	if !finished {
+		return core.Violate("C08/wedged", "concurrent phase: handler calls did not return within 60 s")
 	}
 	now := time.Now()
 	for _, r := range reps {
